@@ -1,11 +1,16 @@
-(* Model of SectionOutput on one shared stream (C15).  Texts are plain (no style tags, no tabs),
-   indentation 0; the terminal width is a parameter (COLUMNS). *)
-From Clikit Require Import Base.Prelude Base.Res Base.Term.
+(* Model of SectionOutput on one shared stream (C15).  The texts are MARKUP: they go through the formatter the
+   sections share (Model/Markup.v) - decorated when they are written to the stream, tag-stripped (remove_format) when
+   their rows are counted - and every section has an indentation.  The terminal width is a parameter (COLUMNS).
+   Tabs and wide characters are not modelled (a character is one cell). *)
+From Clikit Require Import Base.Prelude Base.Res Base.Term Model.Conv Model.Markup.
+From Clikit Require Model.OutputM.
 
-Record sec := { sc_content : list str; sc_lines : nat }.       (* content lines (each followed by "\n" in Python) *)
+(* content lines as add_content keeps them (raw markup, indented; each followed by "\n" in Python), the row count,
+   Output._indent *)
+Record sec := { sc_content : list str; sc_lines : nat; sc_indent : nat }.
 Definition secs := list sec.                                   (* creation order, oldest first *)
 
-(* math.ceil(len / width) or 1 *)
+(* math.ceil(len / width) or 1, of the VISIBLE text of a line *)
 Definition count_rows (w : nat) (line : str) : nat :=
   match length line with O => 1 | S _ => (length line + w - 1) / w end.
 
@@ -20,78 +25,159 @@ Inductive sop :=
 | SCreate
 | SWrite (i : nat) (text : str) (new_line : bool)
 | SOverwrite (i : nat) (text : str)
-| SClear (i : nat) (n : option nat).
+| SClear (i : nat) (n : option nat)
+| SIndent (i : nat) (n : nat).                                 (* section.indent(n): Indent([section], n) sets _indent *)
 
-Definition content_text (s : sec) : list emit := flat_map (fun l => emits_of_text l ++ [Nl]) (sc_content s).
+Definition blanks (n : nat) : str := repeat BLANK n.
+(* add_content and Output.write alike: every NON-EMPTY line of the text gets the indentation, an empty line gets none
+   (so an empty line is one row whatever the indentation) *)
+Definition indent_line (n : nat) (l : str) : str := match l with [] => [] | _ => blanks n ++ l end.
+Definition content_lines (n : nat) (text : str) : list str :=
+  if Nat.eqb n 0 then lines_of text else map (indent_line n) (lines_of text).
+Definition indent_text (n : nat) (text : str) : str :=
+  if Nat.eqb n 0 then text else join_with NL (map (indent_line n) (lines_of text)).
+
+(* _count_rows on a list of content lines: remove_format on every line, in order, on the shared formatter *)
+Fixpoint measure (w : nat) (f : formatter) (ls : list str) (acc : nat) : res (formatter * nat) :=
+  match ls with
+  | [] => Ok (f, acc)
+  | l :: r => do x <- remove_format f l; measure w (fst x) r (acc + count_rows w (snd x))
+  end.
+
+(* the bytes a decorated write puts on the stream, as terminal events: ESC [ (digits and ;)* m is one Sgr event
+   (the same one-pass scanner as Markup.strip_sgr), LF a line feed, everything else a cell *)
+Definition ansi_step (acc : list emit * sgrst) (c : N) : list emit * sgrst :=
+  let '(out, g) := acc in
+  let flush := if N.eqb c ESC then (out ++ emits_of_text (pending_of g), GEsc)
+               else (out ++ emits_of_text (pending_of g ++ [c]), GNone) in
+  match g with
+  | GNone => flush
+  | GEsc => if N.eqb c 91 then (out, GParams []) else flush
+  | GParams p => if is_digit c || N.eqb c SEMI then (out, GParams (p ++ [c]))
+                 else if N.eqb c 109 then (out ++ [Sgr p], GNone) else flush
+  end.
+Definition ansi_end (acc : list emit * sgrst) : list emit := fst acc ++ emits_of_text (pending_of (snd acc)).
+Definition emits_of_ansi (s : str) : list emit := ansi_end (fold_left ansi_step s ([], GNone)).
+
+Definition content_str (s : sec) : str := flat_map (fun l => l ++ [NL]) (sc_content s).    (* SectionOutput.content *)
 Definition newer (st : secs) (i : nat) : secs := skipn (S i) st.
 Definition set_sec (st : secs) (i : nat) (s : sec) : secs := firstn i st ++ s :: skipn (S i) st.
 
-(* _pop_stream_content_until_current_section(lines_to_clear): cursor up / erase, returns what must be re-printed *)
-Definition pop_until (st : secs) (i : nat) (clear : nat) : list emit * list emit :=
-  let nw := newer st i in
-  let total := clear + fold_left (fun a s => a + sc_lines s) nw 0 in
-  ((if Nat.eqb total 0 then [] else [Up total; EraseBelow]), flat_map content_text nw).
+(* _pop_stream_content_until_current_section(lines_to_clear): cursor up / erase (the two control strings have no tag:
+   the formatter hands them back as they are), and the content that must be printed again *)
+Definition pop_ctl (st : secs) (i : nat) (clear : nat) : list emit :=
+  let total := clear + fold_left (fun a s => a + sc_lines s) (newer st i) 0 in
+  if Nat.eqb total 0 then [] else [Up total; EraseBelow].
+Definition erased (st : secs) (i : nat) : str := flat_map content_str (newer st i).
 
 Definition lastn {X} (n : nat) (l : list X) : list X := skipn (length l - n) l.
 Definition droplast {X} (n : nat) (l : list X) : list X := firstn (length l - n) l.
 
-Definition sstep_ansi (w : nat) (st : secs) (o : sop) : secs * list emit :=
+Definition with_indent (s : sec) (n : nat) : sec := {| sc_content := sc_content s; sc_lines := sc_lines s; sc_indent := n |}.
+Definition new_sec : sec := {| sc_content := []; sc_lines := 0; sc_indent := 0 |}.
+
+(* on a decorated output.  The formatter is threaded in the order of the calls: the rows of the new lines are
+   measured (remove_format), the text is written (format, indented, always followed by a line feed), the newer
+   sections are printed again in ONE format call *)
+Definition sstep_ansi (w : nat) (st : secs) (f : formatter) (o : sop) : res (secs * formatter * list emit) :=
   match o with
-  | SCreate => (st ++ [{| sc_content := []; sc_lines := 0 |}], [])
+  | SCreate => Ok (st ++ [new_sec], f, [])
+  | SIndent i n =>
+    match nth_error st i with
+    | None => Ok (st, f, [])
+    | Some s => Ok (set_sec st i (with_indent s n), f, [])
+    end
   | SWrite i text _ =>
     match nth_error st i with
-    | None => (st, [])
+    | None => Ok (st, f, [])
     | Some s =>
-      let '(ctl, again) := pop_until st i 0 in
-      let ls := lines_of text in
-      let s' := {| sc_content := sc_content s ++ ls;
-                   sc_lines := fold_left (fun a l => a + count_rows w l) ls (sc_lines s) |} in
-      (set_sec st i s', ctl ++ emits_of_text text ++ [Nl] ++ again)
+      let ls := content_lines (sc_indent s) text in
+      do m <- measure w f ls (sc_lines s);
+      let s' := {| sc_content := sc_content s ++ ls; sc_lines := snd m; sc_indent := sc_indent s |} in
+      do x <- format (fst m) (indent_text (sc_indent s) text) None;
+      do y <- format (fst x) (erased st i) None;
+      Ok (set_sec st i s', fst y, pop_ctl st i 0 ++ emits_of_ansi (snd x) ++ [Nl] ++ emits_of_ansi (snd y))
     end
   | SClear i n =>
     match nth_error st i with
-    | None => (st, [])
+    | None => Ok (st, f, [])
     | Some s =>
       match sc_content s with
-      | [] => (st, [])
+      | [] => Ok (st, f, [])
       | _ =>
-        let '(keep, rows_cleared) :=
-          match n with
-          | Some (S k) => (droplast (S k) (sc_content s),
-                           fold_left (fun a l => a + count_rows w l) (lastn (S k) (sc_content s)) 0)
-          | _ => ([], sc_lines s)
-          end in
-        let '(ctl, again) := pop_until st i rows_cleared in
-        (set_sec st i {| sc_content := keep; sc_lines := sc_lines s - rows_cleared |}, ctl ++ again)
+        do kr <- match n with
+                 | Some (S k) => do m <- measure w f (lastn (S k) (sc_content s)) 0;
+                                 Ok (droplast (S k) (sc_content s), snd m, fst m)
+                 | _ => Ok ([], sc_lines s, f)
+                 end;
+        let '(keep, rows_cleared, f1) := kr in
+        do y <- format f1 (erased st i) None;
+        Ok (set_sec st i {| sc_content := keep; sc_lines := sc_lines s - rows_cleared; sc_indent := sc_indent s |},
+            fst y, pop_ctl st i rows_cleared ++ emits_of_ansi (snd y))
       end
     end
-  | SOverwrite i text => (st, [])   (* composed below *)
+  | SOverwrite i text => Ok (st, f, [])   (* composed below *)
   end.
-Definition sstep (w : nat) (st : secs) (o : sop) : secs * list emit :=
+Definition sstep (w : nat) (st : secs) (f : formatter) (o : sop) : res (secs * formatter * list emit) :=
   match o with
   | SOverwrite i text =>
-    let '(st1, e1) := sstep_ansi w st (SClear i None) in
-    let '(st2, e2) := sstep_ansi w st1 (SWrite i text true) in
-    (st2, e1 ++ e2)
-  | _ => sstep_ansi w st o
+    do a <- sstep_ansi w st f (SClear i None);
+    do b <- sstep_ansi w (fst (fst a)) (snd (fst a)) (SWrite i text true);
+    Ok (fst (fst b), snd (fst b), snd a ++ snd b)
+  | _ => sstep_ansi w st f o
   end.
 
-(* without ANSI support: plain appended text, nothing tracked *)
-Definition sstep_plain (st : secs) (o : sop) : secs * list emit :=
+(* without ANSI support: Output.write - the indented text, tag-stripped, appended; nothing tracked *)
+Definition write_plain (f : formatter) (n : nat) (text : str) (nl : bool) : res (formatter * list emit) :=
+  do x <- remove_format f (indent_text n text);
+  Ok (fst x, emits_of_text (snd x) ++ (if nl then [Nl] else [])).
+Definition sstep_plain (st : secs) (f : formatter) (o : sop) : res (secs * formatter * list emit) :=
   match o with
-  | SCreate => (st ++ [{| sc_content := []; sc_lines := 0 |}], [])
-  | SWrite i text nl => (st, emits_of_text text ++ (if nl then [Nl] else []))
-  | SOverwrite i text => (st, emits_of_text text ++ [Nl])
-  | SClear _ _ => (st, [])
+  | SCreate => Ok (st ++ [new_sec], f, [])
+  | SIndent i n =>
+    match nth_error st i with
+    | None => Ok (st, f, [])
+    | Some s => Ok (set_sec st i (with_indent s n), f, [])
+    end
+  | SWrite i text nl =>
+    match nth_error st i with
+    | None => Ok (st, f, [])
+    | Some s => do x <- write_plain f (sc_indent s) text nl; Ok (st, fst x, snd x)
+    end
+  | SOverwrite i text =>
+    match nth_error st i with
+    | None => Ok (st, f, [])
+    | Some s => do x <- write_plain f (sc_indent s) text true; Ok (st, fst x, snd x)
+    end
+  | SClear _ _ => Ok (st, f, [])
   end.
 
-Fixpoint srun (ansi : bool) (w : nat) (st : secs) (ops : list sop) : secs * list emit :=
+(* a run stops at the first call that raises *)
+Fixpoint srun (ansi : bool) (w : nat) (st : secs) (f : formatter) (ops : list sop) : res (secs * formatter * list emit) :=
   match ops with
-  | [] => (st, [])
+  | [] => Ok (st, f, [])
   | o :: r =>
-    let '(st1, e1) := if ansi then sstep w st o else sstep_plain st o in
-    let '(st2, e2) := srun ansi w st1 r in (st2, e1 ++ e2)
+    do a <- (if ansi then sstep w st f o else sstep_plain st f o);
+    do b <- srun ansi w (fst (fst a)) (snd (fst a)) r;
+    Ok (fst (fst b), snd (fst b), snd a ++ snd b)
   end.
+
+(* ---- the texts the theorem of Props/C15.v speaks about, as a check that can be run ----
+   a line of GOOD MARKUP: no line feed, ESC or tab; it does not end with a backslash and no tag stands right after a
+   backslash (no escaped tag); the undecorated formatter, started with an empty style stack, accepts it and ends with
+   an empty style stack again (every tag it opens it closes: no tag spans a line break) *)
+Definition TAB : N := 9.
+Definition fineb (m : str) : bool :=
+  forallb (fun c => negb (N.eqb c ESC)) m && negb (ends_with_bsl m)
+  && forallb (fun sg : str * tag => negb (ends_with_bsl (fst sg))) (fst (lex m)).
+Definition good_lineb (sty : styles) (l : str) : bool :=
+  forallb (fun c => negb (N.eqb c LF) && negb (N.eqb c TAB)) l && fineb l
+  && match colorize sty false [] l with Ok ([], _) => true | _ => false end.
+(* a written text: all its lines are good; an op sequence: all its written texts are *)
+Definition good_textb (sty : styles) (text : str) : bool := forallb (good_lineb sty) (lines_of text).
+Definition good_opb (sty : styles) (o : sop) : bool :=
+  match o with SWrite _ text _ | SOverwrite _ text => good_textb sty text | _ => true end.
+Definition good_opsb (sty : styles) (ops : list sop) : bool := forallb (good_opb sty) ops.
 
 (* ---- wire ---- *)
 Definition dec_sop (s : sexp) : option sop :=
@@ -100,18 +186,30 @@ Definition dec_sop (s : sexp) : option sop :=
   | L [A 1%Z; i; t; nl] => match dN i, dStr t, dB nl with Some i, Some t, Some nl => Some (SWrite (N.to_nat i) t nl) | _, _, _ => None end
   | L [A 2%Z; i; t] => match dN i, dStr t with Some i, Some t => Some (SOverwrite (N.to_nat i) t) | _, _ => None end
   | L [A 3%Z; i; n] => match dN i, dOpt dN n with Some i, Some n => Some (SClear (N.to_nat i) (option_map N.to_nat n)) | _, _ => None end
+  | L [A 4%Z; i; n] => match dN i, dN n with Some i, Some n => Some (SIndent (N.to_nat i) (N.to_nat n)) | _, _ => None end
   | _ => None
   end.
+(* request: ansi?, width, the style set of the formatter, the ops.  answer: the emits, every section's content lines /
+   row count / indentation, the terminal after the emits, and whether the op sequence is inside the class of the
+   theorem (every written line is good markup) *)
 Definition run_C15 (s : sexp) : sexp :=
   match s with
-  | L [ansi; w; ops] =>
-    match dB ansi, dN w, dList dec_sop ops with
-    | Some ansi, Some w, Some ops =>
-      let '(st, es) := srun ansi (N.to_nat w) [] ops in
-      L [sList enc_emit es;
-         sList (fun x => L [sList sStr (sc_content x); A (Z.of_nat (sc_lines x))]) st;
-         enc_term (feed (N.to_nat w) term_init es)]
-    | _, _, _ => sBad
+  | L [ansi; w; set; ops] =>
+    match dB ansi, dN w, dList OutputM.dec_cstyle set, dList dec_sop ops with
+    | Some ansi, Some w, Some set, Some ops =>
+      match new_formatter (if ansi then FAnsi true else FPlain) set with
+      | Ok f =>
+        match srun ansi (N.to_nat w) [] f ops with
+        | Ok (st, _, es) =>
+          L [A 0%Z; sList enc_emit es;
+             sList (fun x => L [sList sStr (sc_content x); A (Z.of_nat (sc_lines x)); A (Z.of_nat (sc_indent x))]) st;
+             enc_term (feed (N.to_nat w) term_init es);
+             sB (good_opsb (f_styles f) ops)]
+        | Err k => sErr k
+        end
+      | Err k => sErr k
+      end
+    | _, _, _, _ => sBad
     end
   | _ => sBad
   end.
